@@ -187,6 +187,12 @@ func build(v reflect.Value, d *Val) error {
 		if fi != len(d.F) {
 			return fmt.Errorf("object description has %d fields, %s has %d", len(d.F), t, fi)
 		}
+	case "noalt":
+		// a union with no alternative chosen: the zero value
+		if v.Kind() != reflect.Struct {
+			return fmt.Errorf("no alternative into %s", t)
+		}
+		v.Set(reflect.Zero(t))
 	case "alt":
 		if v.Kind() != reflect.Struct || d.I >= t.NumField() {
 			return fmt.Errorf("alternative %d into %s", d.I, t)
